@@ -19,3 +19,26 @@ func copyStream(name string, dst io.Writer, src io.Reader) {
 		log.Printf("[ERR] plugin: stream copy '%s' error: %s", name, err)
 	}
 }
+
+// copyChanStream writes what arrives on src to dst until done is closed.
+func copyChanStream(name string, dst io.Writer, src <-chan []byte, done <-chan struct{}) {
+	for {
+		// A connection that has ended takes nothing more, even if data is
+		// on offer at the same moment.
+		select {
+		case <-done:
+			return
+		default:
+		}
+
+		select {
+		case data := <-src:
+			if _, err := dst.Write(data); err != nil {
+				log.Printf("[ERR] plugin: stream copy '%s' error: %s", name, err)
+				return
+			}
+		case <-done:
+			return
+		}
+	}
+}
